@@ -197,6 +197,16 @@ pub fn judge(bytes: &[u8], m: &Model, keys: &KeyMap, store: &TactKeyStore) -> Ju
                             format!("chunk {i}: recorded {}, MD5(stored chunk) {}", hex(&e.md5), hex(&sum)),
                         ));
                     }
+                    if let (Some(d), Ok(g), false) = (&e.dmd5, &got, is_enc) {
+                        // (for an encrypted chunk the library hashes what a key-less reader sees: not judged)
+                        let sum = decoder::md5_of(g);
+                        if sum != *d {
+                            table.push(f(
+                                "table:extended-checksum-is-not-md5-of-decoded-chunk",
+                                format!("chunk {i}: recorded {}, MD5(decoded chunk) {}", hex(d), hex(&sum)),
+                            ));
+                        }
+                    }
                     if let Some(l) = decoded_len {
                         if e.dsize as usize != l {
                             let inner = info.as_ref().map(|x| x.cipher_len);
